@@ -74,6 +74,7 @@ def gen(seed, tier):
         o = {"i": r.choice(["x", "e", "aAews"]), "u": -1, "o": "x"}
         if rep % 2:
             o["U"] = 1
+        o["l"] = rep % 3          # 0: no error log, 1: -l file, 2: -l file with every log level on
         cases.append(("C06-c%d" % n, "C", opts_str(o), seg(0, lines)))
         n += 1
     return cases
